@@ -46,13 +46,15 @@ MUTANTS = [
     M("xlsx-reset-after-read", "sharepoint2text/parsing/extractors/ms_modern/xlsx_extractor.py", "    if hasattr(ws, \"reset_dimensions\"):\n        ws.reset_dimensions()\n    rows = list(ws.iter_rows(values_only=True))\n", "    rows = list(ws.iter_rows(values_only=True))\n    if hasattr(ws, \"reset_dimensions\"):\n        ws.reset_dimensions()\n", "C13-GRID"),
     M("odt-blank-tails-dropped", ODTF, "        if child.tail:\n            parts.append(child.tail)\n", "        if child.tail and not child.tail.isspace():\n            parts.append(child.tail)\n", "C13-TAIL"),
     M("odf-shared-tail-needs-content", X + "open_office/_shared.py", "        tail = child.tail\n        if tail:\n            parts.append(tail)\n", "        tail = child.tail\n        if tail and tail != \" \":\n            parts.append(tail)\n", "C13-TAIL"),
-    M("html-endtag-closes-to-any-ancestor", X + "html_extractor.py", "        if len(self.stack) > 1 and self.stack[-1][\"tag\"] == tag:\n            self.last_closed = self.stack.pop()\n", "        if len(self.stack) > 1:\n            self.last_closed = self.stack.pop()\n", "C13-STACK"),
+    M("html-endtag-closes-whatever-is-open", X + "html_extractor.py", "        index = self._open_index((tag,), tag)\n        if index is not None:\n            self.last_closed = self.stack[index]\n            del self.stack[index:]\n", "        if len(self.stack) > 1:\n            self.last_closed = self.stack.pop()\n", "C13-STACK"),
+    M("html-td-does-not-close-th", X + "html_extractor.py", "    \"td\": frozenset({\"td\", \"th\"}),\n", "    \"td\": frozenset({\"td\"}),\n", "C13-STACK"),
+    M("html-no-implied-end-tags", X + "html_extractor.py", "        implied = _IMPLIED_END_TAGS.get(tag)\n        if implied:\n            index = self._open_index(implied, tag)\n            if index is not None:\n                del self.stack[index:]\n", "", "C13-STACK"),
 ]
 
 TWINS = [
+    T("html-endtag-guard-leaves", X + "html_extractor.py", "        index = self._open_index((tag,), tag)\n        if index is not None:\n            self.last_closed = self.stack[index]\n            del self.stack[index:]\n", "        index = self._open_index((tag,), tag)\n        if index is None:\n            return\n        self.last_closed = self.stack[index]\n        del self.stack[index:]\n"),
+    T("html-implied-end-tags-by-subscript", X + "html_extractor.py", "        implied = _IMPLIED_END_TAGS.get(tag)\n        if implied:\n", "        implied = _IMPLIED_END_TAGS[tag] if tag in _IMPLIED_END_TAGS else None\n        if implied:\n"),
     T("odf-shared-tail-is-not-none-and-nonempty", X + "open_office/_shared.py", "        tail = child.tail\n        if tail:\n            parts.append(tail)\n", "        tail = child.tail\n        if tail is not None and tail:\n            parts.append(tail)\n"),
-    T("html-endtag-closes-open-ancestor", X + "html_extractor.py", "        if len(self.stack) > 1 and self.stack[-1][\"tag\"] == tag:\n            self.last_closed = self.stack.pop()\n", "        if any(n[\"tag\"] == tag for n in self.stack[1:]):\n            while len(self.stack) > 1:\n                self.last_closed = self.stack.pop()\n                if self.last_closed[\"tag\"] == tag:\n                    break\n"),
-    T("html-endtag-guard-leaves", X + "html_extractor.py", "        if len(self.stack) > 1 and self.stack[-1][\"tag\"] == tag:\n            self.last_closed = self.stack.pop()\n", "        if len(self.stack) <= 1 or self.stack[-1][\"tag\"] != tag:\n            return\n        self.last_closed = self.stack.pop()\n"),
     T("docx-grid-count-by-findall", "sharepoint2text/parsing/extractors/ms_modern/docx_extractor.py", "    elem = properties.find(tag)\n    if elem is None:\n        return 0\n", "    found = properties.findall(tag)\n    if not found:\n        return 0\n    elem = found[0]\n"),
     T("xlsx-reset-unconditional", "sharepoint2text/parsing/extractors/ms_modern/xlsx_extractor.py", "    if hasattr(ws, \"reset_dimensions\"):\n        ws.reset_dimensions()\n", "    ws.reset_dimensions()\n"),
     T("xlsx-emptiness-spelled-out", XLSX, "    return val is not None and (not isinstance(val, str) or val.strip() != \"\")", "    if val is None:\n        return False\n    if isinstance(val, str):\n        return val.strip() != \"\"\n    return True"),
@@ -82,5 +84,6 @@ SEEDED = [
     ("C13-13", "C13-ODS"),
     ("C13-14", "C13-TAIL"),
     ("C13-15", "C13-STACK"),
+    ("C13-10", "C13-CHUNK"),
 ]
 MUTANTS = list(MUTANTS) + [_P("seed-" + sid, _os.path.join(_SEEDS, sid, "patch.diff"), rule) for sid, rule in SEEDED if _os.path.exists(_os.path.join(_SEEDS, sid, "patch.diff"))]
